@@ -80,7 +80,12 @@ void *rs_malloc(size_t req_size)
 
 void *rs_calloc(size_t nmemb, size_t size)
 {
-	size_t tot = nmemb * size;
+	size_t tot;
+	/* C11 7.22.3.2: calloc must fail when nmemb * size is not representable */
+	if(unlikely(__builtin_mul_overflow(nmemb, size, &tot))) {
+		errno = ENOMEM;
+		return NULL;
+	}
 	void *ret = rs_malloc(tot);
 
 	if(likely(ret))
